@@ -81,8 +81,8 @@ class VecTrack:
         """clang bound the mentioned object to a const object / copied it"""
         for p in reversed(parents):
             k = p.get('kind')
-            if k == 'ParenExpr':
-                continue
+            if k in ('ParenExpr', 'ConditionalOperator'):
+                continue           # `c ? a : b` as an lvalue: what binds the conditional binds the operand
             if k == 'ImplicitCastExpr':
                 ck = p.get('castKind')
                 if ck == 'LValueToRValue':
